@@ -161,6 +161,30 @@ CHECKS["C16"] = dict(
          "Comparison obligations are per length pair (bodies are length-independent).",
     technique=_T)
 
+CHECKS["C14"] = dict(
+    category="proof",
+    text="Sufficient condition for serial equivalence, proved over all symbolic paths of the call trees of validation "
+         "(with/without national check), all 39 German methods, all national algorithms, BIC and generation: every "
+         "attribute/container write targets an object allocated in the call (pyvc write log). Where a shared write "
+         "exists, the functional contract is re-proved with every read of that field arbitrary (constrained by what "
+         "some call can write there); a failure is replayed natively under a forced two-thread schedule.",
+    design_ref="DESIGN.md C14",
+    note="The family has no schedule quantifier: the non-interference meta-theorem, thread safety of read-only use of "
+         "dependencies and the per-thread semantics of threading.local are assumed. No enumeration of interleavings.",
+    technique="contract-based deductive verification: write-frame obligations + rely/guarantee re-proof (pyvc, z3); "
+              "forced-schedule native replay")
+CHECKS["C15"] = dict(
+    category="proof",
+    text="The functional contracts of the same call trees are proved with the scratch state of the shared algorithm "
+         "objects havocked at entry and functools.lru_cache modelled as 'fresh result or result of an earlier call with "
+         "an equal key' (history-dependent caches are refuted and replayed with the earlier call as prelude); write "
+         "frames show no call writes registries, arguments or earlier objects; a bounded native run compares 190+ calls "
+         "under three histories in fresh processes and the process-wide state before/after.",
+    design_ref="DESIGN.md C15",
+    note="History carriers other than instance scratch fields, threading.local storage and lru_cache are only caught "
+         "as frame violations (writes to shared containers) or by the bounded native history run.",
+    technique=_T + "; bounded native history comparison")
+
 NOT_YET = {}
 
 ALL = [f"C{i:02d}" for i in range(1, 19)]
